@@ -556,7 +556,7 @@ func (c *Ctx) ruleKeepAliveZero(id string) {
 			if len(args) != 1 {
 				continue
 			}
-			fa := intervalField(args[0])
+			fa := intervalField(p.Resolve(args[0])) // through a setDeadline(t) helper: what this path passes for t
 			if fa == nil {
 				continue // not derived from the interval (e.g. the zero time: deadline cleared)
 			}
@@ -568,6 +568,10 @@ func (c *Ctx) ruleKeepAliveZero(id string) {
 					break
 				}
 				bo, ok := d.Cond.(*ssa.BinOp)
+				if !ok {
+					// a predicate of the session (s.keepAliveDisabled()): what it returned on this path
+					bo, ok = p.Resolve(d.Cond).(*ssa.BinOp)
+				}
 				if !ok {
 					continue
 				}
